@@ -21,6 +21,16 @@ type pendingTimeout struct {
 	sessionState
 }
 
+func (s pendingTimeout) FixMsgIn(session *session, msg *Message) (nextState sessionState) {
+	nextState = s.sessionState.FixMsgIn(session, msg)
+	if session.heartbeatDue.Load() && nextState.IsLoggedOn() {
+		// The message has ended the pending test request. A Heartbeat fell due while it was
+		// outstanding and nothing has been sent since: send it now, not one more interval later.
+		nextState = nextState.Timeout(session, internal.NeedHeartbeat)
+	}
+	return
+}
+
 func (s pendingTimeout) Timeout(session *session, event internal.Event) (nextState sessionState) {
 	switch event {
 	case internal.PeerTimeout:
@@ -29,6 +39,7 @@ func (s pendingTimeout) Timeout(session *session, event internal.Event) (nextSta
 	case internal.NeedHeartbeat:
 		// The heartbeat timer is one-shot and only re-armed by a send. Keep it running
 		// while the test request is outstanding so heartbeats resume once it is answered.
+		session.heartbeatDue.Store(true)
 		session.stateTimer.Reset(session.HeartBtInt)
 	}
 
